@@ -209,8 +209,52 @@ theorem await_ghost_irrelevant {x x' : SG} {p : Peripheral} (hA : Await x p)
    by rw [h3]; exact hA.notAcc, by rw [h8]; exact hA.inflight⟩
 
 theorem inv8_step {fp : FdlParams} (hfp : FpOk fp) {g g' : G} (hI : Inv fp g) (h8 : Inv8 g) (op : Op)
-    (h : gstep fp g op = .ok g') : Inv8 g' := by
+    (h : gstep fp g op = .ok g') (hu : g'.tainted = false) : Inv8 g' := by
+  have hu0 := tainted_mono op h hu
   cases op with
+  | resetAddr slot a =>
+    simp only [gstep] at h
+    split at h
+    · cases h
+    · cases hw : g.m.resetAddress slot a with
+      | none => rw [hw] at h; cases h
+      | some m' =>
+        rw [hw] at h
+        simp only [Res3.ok.injEq] at h; subst h
+        unfold Master.resetAddress Master.peripheral? at hw
+        cases hs : g.m.slots.getD slot none with
+        | none => rw [hs] at hw; cases hw
+        | some p =>
+          rw [hs] at hw
+          simp only [Option.some.injEq] at hw; subst hw
+          have hj : g.m.slots[slot]? = some (some p) := by
+            rw [List.getD_eq_getElem?_getD] at hs
+            cases hh : g.m.slots[slot]? with
+            | none => rw [hh] at hs; cases hs
+            | some x => rw [hh] at hs; simp only [Option.getD_some] at hs; rw [hs]
+          simp only [Bool.or_eq_false_iff] at hu
+          refine ⟨?_, ?_⟩
+          · refine set_pres (fun j p => J8 (g.sg j) p) (fun j p => J8 (g.upd slot (fun _ => {}) j) p) h8.slot ?_ ?_
+            · rw [upd_same]; exact j8_init rfl rfl
+            · intro j q hjq hJ; rw [upd_other _ _ hjq]; exact hJ
+          · intro a' ha' j q hq
+            rw [cur_of_set hj { g.m with slots := g.m.slots.set slot (some (p.resetAddress a)) } rfl rfl] at hq
+            cases hc : g.m.cur with
+            | none => rw [hc] at hq; cases hq
+            | some ip =>
+              obtain ⟨i0, p0⟩ := ip
+              rw [hc] at hq
+              simp only [Option.map_some, Option.some.injEq] at hq
+              have ho : g.out = some a' := ha'
+              by_cases hij : i0 = slot
+              · exfalso
+                have h2 := hu.2
+                simp [resetTaints, ho, hc, hij] at h2
+              · simp only [hij, if_false, Prod.mk.injEq] at hq
+                obtain ⟨rfl, rfl⟩ := hq
+                show Await (g.upd slot (fun _ => {}) i0) p0
+                rw [upd_other _ _ hij]
+                exact h8.await a' ho i0 p0 hc
   | tx now hp =>
     refine tx_elim hfp hI h Inv8 ?_ ?_ ?_ ?_
     · intro _ _ _
@@ -247,7 +291,7 @@ theorem inv8_step {fp : FdlParams} (hfp : FpOk fp) {g g' : G} (hI : Inv fp g) (h
       · rw [upd_same]; exact j8_offline (h1 i p hi)
       · intro j q hj hJ; rw [upd_other _ _ hj]; exact hJ
   | reply a t =>
-    obtain ⟨index, i, p, p', ev, ho, hcy, hc, hpa, hal, hspec, rfl⟩ := reply_form hI h
+    obtain ⟨index, i, p, p', ev, ho, hcy, hc, hpa, hal, hspec, rfl⟩ := reply_form hI hu0 h
     have hi := (curSlot_spec hc).2.2.1
     have hcur : g.m.cur = some (i, p) := by simp [Master.cur, hcy, hc]
     refine ⟨?_, by intro a ha; cases ha⟩
